@@ -272,9 +272,18 @@ theorem work_before_guard_unprotected :
       execBody [] env auth W "T" "m" (fun _ _ s => (.err, s))
         [.work 0 "if <payload empty> { delete; return ok }", .rejectIf (.ne .keeperAuthority .reqAuthority)] 0 = (.ok, 1) := by
   refine ⟨⟨fun _ _ _ s => .ret .ok (s + 1), true, 0, fun s => (.err, s)⟩,
-    ⟨⟨[], 0, 0⟩, [1], fun _ => [], fun _ => [], fun _ => [], fun _ => false, fun _ => false, fun _ => none⟩, [2], ?_, ?_⟩
+    ⟨⟨[], 0, 0⟩, [1], fun _ => [], fun _ => [], fun _ => [], fun _ => false, fun _ => false, fun _ => none, fun _ => false, true, fun _ => none⟩, [2], ?_, ?_⟩
   · decide
   · rfl
+
+/-- (d) a check that only ASSIGNS a named error result is not a rejection: when a later loop overwrites that result (nil
+after a well-formed entry) the helper reports no error for EVERY authority — exactly when the list is non-empty and
+well-formed; with an empty list the assigned error survives -/
+theorem named_result_overwritten_is_no_guard (env : Env) (auth : Str) (c : BExpr) (f : String) :
+    helperVal env auth false [.setIf c true, .clobberLoop f, .retVar] =
+      if env.listNonEmpty f then !env.payloadGood else evalB0 env auth c := by
+  cases h1 : env.listNonEmpty f <;> cases h2 : env.payloadGood <;> simp [helperVal, h1, h2] <;>
+    cases evalB0 env auth c <;> rfl
 
 /-- (d) at message level every rejection — by a guard, by work that fails after writing, by a later check — leaves the
 stores as they were, because the message runs on a branch that is written back only on success -/
